@@ -88,6 +88,11 @@ def judge(case, part):
     if not lines or not lines[0].startswith("create table some_table (") or lines[-1].strip() != ");":
         part.fail(tag % "statement-frame", case, "create table some_table ( ... );", statement)
         return
+    # column definitions are separated by one comma: behind every column but the last
+    separators = [len(line.strip()) - len(line.strip().rstrip(",")) for line in lines[1:-1]]
+    if separators != [1] * (len(separators) - 1) + [0] * min(1, len(separators)):
+        part.fail(tag % "column-separators", case, "one comma behind every column but the last", statement)
+        return
     columns = [line.strip().rstrip(",") for line in lines[1:-1]]
     part.validated += 1
     if len(columns) != len(case["fields"]):
